@@ -124,6 +124,15 @@ static cJSON_bool compare_double(double a, double b)
         return (a == b);
     }
 
+    if (maxVal < (DBL_MIN / DBL_EPSILON))
+    {
+        /* maxVal * DBL_EPSILON would be subnormal and lose most of its precision,
+         * scale everything up by a power of two first (which is exact) */
+        a /= DBL_EPSILON;
+        b /= DBL_EPSILON;
+        maxVal /= DBL_EPSILON;
+    }
+
     return (fabs(a - b) <= maxVal * DBL_EPSILON);
 }
 
